@@ -33,7 +33,10 @@ func (s *recStore) SendBuffers(sid adapter.SocketID, buffers [][]byte) bool {
 	s.sent[sid] = append(s.sent[sid], cp)
 	return true
 }
-func (s *recStore) Get(sid adapter.SocketID) (adapter.Socket, bool) { so, ok := s.socks[sid]; return so, ok }
+func (s *recStore) Get(sid adapter.SocketID) (adapter.Socket, bool) {
+	so, ok := s.socks[sid]
+	return so, ok
+}
 func (s *recStore) GetAll() []adapter.Socket {
 	var out []adapter.Socket
 	for _, k := range vsched.SortedKeys(s.socks) {
@@ -57,17 +60,25 @@ var sessSID = [2]string{sidS, sidT}
 var sessPID = [2]string{pidS, pidT}
 
 type caseID struct {
-	H     history
-	K     int
-	Delta time.Duration
+	H       history
+	K       int
+	Delta   time.Duration
+	Spacing time.Duration // between the packets before the disconnect (0 = 10 s)
+}
+
+func (c caseID) spacing() time.Duration {
+	if c.Spacing == 0 {
+		return 10 * time.Second
+	}
+	return c.Spacing
 }
 
 func (c caseID) String() string {
-	return fmt.Sprintf("history %s, disconnect after packet %d, reconnect %v later", c.H, c.K, c.Delta)
+	return fmt.Sprintf("history %s (packets %v apart), disconnect after packet %d, reconnect %v later", c.H, c.spacing(), c.K, c.Delta)
 }
 
 func (c caseID) replay(part string) map[string]any {
-	return map[string]any{"part": part, "history": c.H.ints(), "history_text": c.H.String(), "k": c.K, "delta_ms": c.Delta.Milliseconds()}
+	return map[string]any{"part": part, "history": c.H.ints(), "history_text": c.H.String(), "k": c.K, "delta_ms": c.Delta.Milliseconds(), "spacing_ms": c.spacing().Milliseconds()}
 }
 
 // less orders cases by size: shorter history, earlier disconnect, earlier reconnection, then lexicographic.
@@ -77,6 +88,9 @@ func (c caseID) less(d caseID) bool {
 	}
 	if c.K != d.K {
 		return c.K < d.K
+	}
+	if c.spacing() != d.spacing() {
+		return c.spacing() < d.spacing()
 	}
 	if c.Delta != d.Delta {
 		return c.Delta < d.Delta
@@ -142,7 +156,7 @@ func sleepUntil(e *vsched.Exec, t time.Duration) {
 
 func runAdapterCase(c caseID) (res caseResult) {
 	n := len(c.H)
-	tm := schedule(n, c.K, c.Delta)
+	tm := schedule(n, c.K, c.Delta, c.spacing())
 	if tm.onCleanerGrid() {
 		res.HarnessErr = fmt.Sprintf("%v: an event falls on a clean-up pass", c)
 		return
@@ -269,7 +283,6 @@ func runAdapterCase(c caseID) (res caseResult) {
 			return
 		}
 		// reconnect
-		var recovered []*adapter.PersistedPacket
 		for s := 0; s < 2; s++ {
 			who := fmt.Sprintf("session %s (rooms %v)", sessSID[s], sessRooms[s])
 			offset := ""
@@ -295,6 +308,8 @@ func runAdapterCase(c caseID) (res caseResult) {
 					c, who, c.Delta, offsetIdx[s]+1, tm.tRe-model[offsetIdx[s]].at, window, passesBetween(model[offsetIdx[s]].at, tm.tRe))
 			case exp == mustNot && ok && c.Delta > window:
 				add("adapter: session older than the window was recovered", "%v: %s recovered %v after its disconnect (window %v)", c, who, c.Delta, window)
+			case exp == mustNot && ok && offsetIdx[s] >= 0:
+				add("adapter: session recovered with an offset that expired more than a clean-up period ago", "%v: %s recovered although %s (packet %d, emitted %v before the reconnection; window %v, clean-up every %v)", c, who, why, offsetIdx[s]+1, tm.tRe-model[offsetIdx[s]].at, window, cleanerPeriod)
 			case exp == mustNot && ok:
 				add("adapter: session recovered without a known offset", "%v: %s recovered although %s", c, who, why)
 			}
@@ -325,9 +340,6 @@ func runAdapterCase(c caseID) (res caseResult) {
 			for _, f := range judgeMissed("adapter", ids, model, offsetIdx[s], s, tm) {
 				add(f.Key, "%v: %s: %s", c, who, f.Msg)
 			}
-			if s == 0 {
-				recovered = sess.MissedPackets
-			}
 		}
 		for _, p := range model[minInt(offsetIdx[0]+1, n):] {
 			if offsetIdx[0] >= 0 && p.logged && p.to[0] {
@@ -345,31 +357,6 @@ func runAdapterCase(c caseID) (res caseResult) {
 		}
 		if _, ok := a.RestoreSession(pidS, "never-logged-offset"); ok {
 			add("adapter: session recovered with an offset that was never logged", "%v", c)
-		}
-		// last (it rewrites the logged data again): what newServerSocket does with a missed packet
-		byID := map[string]*mpkt{}
-		for i := range model {
-			if model[i].logged {
-				byID[model[i].id] = &model[i]
-			}
-		}
-		enc := jsonparser.NewCreator(0, stdjson.New())()
-		for _, p := range recovered {
-			m := byID[p.ID]
-			if m == nil {
-				continue
-			}
-			kind := "text"
-			if m.s.bin() {
-				kind = "binary"
-			}
-			bufs, err := enc.Encode(p.Header, &p.Data)
-			if err != nil {
-				add("adapter: logged "+kind+" packet cannot be encoded again for the replay", "%v: packet %d (%v): Encode(Header, &Data) of the log entry: %v", c, m.idx+1, m.s, err)
-			} else if !sameFrames(bufs, wantFrames(m)) {
-				add("adapter: logged "+kind+" packet does not re-encode to the frames that were broadcast", "%v: packet %d (%v): Encode(Header, &Data) of the log entry gives %s, the broadcast was %s",
-					c, m.idx+1, m.s, showFrames(bufs), showFrames(wantFrames(m)))
-			}
 		}
 	})
 	res.Steps = e.Steps
